@@ -308,36 +308,7 @@ func init() {
 	// vRunSpawned(ticks): run every captured `go` closure until it
 	// returns or has slept `ticks` times; returns how many returned.
 	reg(hp+"vRunSpawned", func(i *interpreter, fr *frame, args []value) value {
-		ticks := int(asInt64(args[0]))
-		done := 0
-		e := i.env
-		for idx := 0; idx < len(e.spawned); idx++ {
-			sp := e.spawned[idx]
-			if sp.ran {
-				continue
-			}
-			func() {
-				prevT := e.curThread
-				if e.sched == nil {
-					e.curThread = 100 + idx
-				}
-				e.inSpawn, e.sleepBudget = true, ticks
-				defer func() {
-					e.curThread = prevT
-					e.inSpawn = false
-					if r := recover(); r != nil {
-						if _, ok := r.(stopSpawn); ok {
-							return
-						}
-						panic(r)
-					}
-				}()
-				call(i, nil, sp.pos, sp.fn, sp.args)
-				sp.ran = true
-				done++
-			}()
-		}
-		return done
+		return i.runSpawned(int(asInt64(args[0])))
 	})
 	reg(hp+"vSpawnedCount", func(i *interpreter, fr *frame, args []value) value {
 		n := 0
@@ -416,4 +387,38 @@ func (e *envState) sentinel(name, msg string) value {
 	v := iface{t: e.libPtrType("errors", "errorString"), v: &modelErr{msg: msg}}
 	e.sentinels[name] = v
 	return v
+}
+
+// runSpawned runs every captured `go` closure until it returns or has slept
+// `ticks` times; it returns how many returned.
+func (i *interpreter) runSpawned(ticks int) int {
+	done := 0
+	e := i.env
+	for idx := 0; idx < len(e.spawned); idx++ {
+		sp := e.spawned[idx]
+		if sp.ran {
+			continue
+		}
+		func() {
+			prevT := e.curThread
+			if e.sched == nil {
+				e.curThread = 100 + idx
+			}
+			e.inSpawn, e.sleepBudget = true, ticks
+			defer func() {
+				e.curThread = prevT
+				e.inSpawn = false
+				if r := recover(); r != nil {
+					if _, ok := r.(stopSpawn); ok {
+						return
+					}
+					panic(r)
+				}
+			}()
+			call(i, nil, sp.pos, sp.fn, sp.args)
+			sp.ran = true
+			done++
+		}()
+	}
+	return done
 }
